@@ -32,7 +32,7 @@ ANCHORS = [("leuvenmapmatching/map/inmem.py", "InMemMap.nodes_closeto"),
            ("leuvenmapmatching/map/sqlite.py", "SqliteMap.all_edges")]
 CELLS = [f"{b}:{q}:{m}" for b in ("inmem", "sqlite") for q in ("nodes", "edges") for m in ("unit", "big", "latlon", "tiny")]
 FLOORS = {f"cell:{c}": 300 for c in CELLS}
-FLOORS.update({"class:tangent": 40, "class:long_edge": 100, "class:border32": 100, "class:at_radius": 100, "class:infinite": 100,
+FLOORS.update({"class:tangent": 40, "class:long_edge": 100, "class:border32": 100, "class:at_radius": 100, "class:infinite": 100, "class:big_grid": 10,
                "debug_level_maps": 500, "reused_database_files": 800, "reused_database_files_single_inserts": 200, "queries_judged": 8000, "truncations_judged": 1500, "long_edge_through_disc": 60,
                "item_exactly_at_radius": 40, "item_within_ulp32_of_box_border": 60})
 ASSUMPTIONS = ["membership is not judged for items whose reference distance is within 1e-9*r (planar; exactly-equal is judged by "
@@ -54,7 +54,29 @@ def f32_out(x, up):
     return f
 
 
+def gen_big_case(rng):
+    """a map with thousands of roads (bounds on the number of rows a query reads bite here): n x n grid, 2n(n-1) two-way
+    streets, queries whose disc contains more than a thousand of them."""
+    n = rng.randint(24, 34)
+    step = rng.choice([1.0, 10.0])
+    nodes = [[r * n + c, [r * step + rng.uniform(-0.2, 0.2) * step, c * step + rng.uniform(-0.2, 0.2) * step]] for r in range(n) for c in range(n)]
+    edges = []
+    for r in range(n):
+        for c in range(n):
+            if c + 1 < n:
+                edges += [[r * n + c, r * n + c + 1], [r * n + c + 1, r * n + c]]
+            if r + 1 < n:
+                edges += [[r * n + c, (r + 1) * n + c], [(r + 1) * n + c, r * n + c]]
+    ctr = (n / 2 * step + rng.uniform(-1, 1) * step, n / 2 * step + rng.uniform(-1, 1) * step)
+    queries = [{"loc": list(ctr), "r": rng.choice([n * step * 0.45, n * step * 0.7, math.inf]), "k": rng.choice([None, 5]), "cls": "plain"},
+               {"loc": [ctr[0] + 3 * step, ctr[1] - 2 * step], "r": 1.5 * step, "k": None, "cls": "plain"}]
+    m = {"nodes": nodes, "edges": edges, "latlon": False, "kind": "big_grid"}
+    return {"map": m, "mag": "unit", "cls": "big_grid", "queries": queries, "bulk": True, "dups": [], "debug": False, "prior": None}
+
+
 def gen_case(rng, i, tier):
+    if i % 300 == 123:
+        return gen_big_case(rng)
     mag = ["unit", "big", "latlon", "unit", "big", "latlon", "tiny"][i % 7]
     cls = rng.choice(["random", "random", "grid", "long_edge", "border32", "at_radius"])
     n = rng.randint(3, 12)
